@@ -104,9 +104,86 @@ func c01LegacyWindow(r *Run) {
 	c.emit("legacy-window")
 }
 
+// honest storage proofs in the blocks just before, at and after the storage-proof hardfork height, for files whose
+// size is a multiple of the leaf size (the last leaf is a full leaf) and for empty files: from the fork height on they
+// must be accepted (below it the legacy rules cannot prove them: outside the property's quantifier)
+func c07ForkBoundary(r *Run) {
+	for _, size := range []int{64, 0, 128, 192, 65} {
+		n := r.ledgerNet()
+		n.HardforkTax.Height = 2
+		n.HardforkStorageProof.Height = 9
+		c := newLChain(r, n, 1000, 2000)
+		H := n.HardforkStorageProof.Height
+		step := func(build func(p *blockPlan)) bool {
+			p := c.plan()
+			build(p)
+			b := c.newBlock(p.txns, p.v2txns)
+			if err := c.process(b, c.supplement(b), true, "honest"); err != nil {
+				r.violate("c07.honest-proof-rejected", "an honest storage proof of a %d-byte file in the block at height %d (storage-proof fork height %d) is rejected: %v", size, c.child(), H, err)
+				return false
+			}
+			return true
+		}
+		for c.child() < H-3 {
+			if !step(func(p *blockPlan) {}) {
+				return
+			}
+		}
+		var ids []types.FileContractID
+		if !step(func(p *blockPlan) {
+			// three contracts over the same file, to be proven at heights H, H+1 and H+2
+			for k := 0; k < 3; k++ {
+				in, key, _, ok := p.pickSC(types.Siacoins(120), true)
+				if !ok {
+					return
+				}
+				data := make([]byte, size)
+				r.fillBytes(data)
+				payout := types.Siacoins(uint32(20 + k))
+				fc := types.FileContract{Filesize: uint64(size), FileMerkleRoot: naiveFileRoot(fileLeafHashes(data)), WindowStart: H - 1, WindowEnd: H + 4, Payout: payout, UnlockHash: c.addr1(key)}
+				tax := c.cs().FileContractTax(fc)
+				vs := payout.Sub(tax)
+				fc.ValidProofOutputs = []types.SiacoinOutput{{Value: vs, Address: c.addr1(key)}}
+				fc.MissedProofOutputs = []types.SiacoinOutput{{Value: vs, Address: types.VoidAddress}}
+				txn := types.Transaction{SiacoinInputs: []types.SiacoinInput{{ParentID: in.ID, UnlockConditions: c.uc(key)}}, FileContracts: []types.FileContract{fc},
+					SiacoinOutputs: []types.SiacoinOutput{{Value: in.SiacoinOutput.Value.Sub(payout), Address: c.addr1(key)}}}
+				c.signV1(&txn, map[types.Hash256]int{types.Hash256(in.ID): key}, false)
+				c.files[txn.FileContractID(0)] = data
+				ids = append(ids, txn.FileContractID(0))
+				p.txns = append(p.txns, txn)
+			}
+		}) || len(ids) != 3 {
+			return
+		}
+		for c.child() < H {
+			if !step(func(p *blockPlan) {}) {
+				return
+			}
+		}
+		for k := 0; k < 3; k++ { // child heights H, H+1, H+2
+			id := ids[k]
+			if !step(func(p *blockPlan) {
+				e, ok := c.st().fces[id]
+				if !ok {
+					return
+				}
+				if sp, ok := c.v1Proof(id, e); ok {
+					p.txns = append(p.txns, types.Transaction{StorageProofs: []types.StorageProof{sp}})
+					r.count("oracle-proof-at-fork-boundary")
+				}
+			}) {
+				return
+			}
+		}
+	}
+}
+
 func runLedger(r *Run, prop string) {
 	if prop == "C01" {
 		c01LegacyWindow(r)
+	}
+	if prop == "C07" || prop == "C08" {
+		c07ForkBoundary(r)
 	}
 	if prop == "C09" {
 		c09Copies(r)
@@ -115,7 +192,7 @@ func runLedger(r *Run, prop string) {
 		}
 	}
 	nchains := r.pick(40, 600)
-	if prop == "C04" {
+	if prop == "C04" || prop == "C05" {
 		nchains = r.pick(16, 200)
 	}
 	for ci := 0; ci < nchains; ci++ {
